@@ -1372,6 +1372,13 @@ impl<'a> UserModel<'a> {
         column_end: i32,
         hidden: bool,
     ) -> Result<(), String> {
+        // Check both ends first, so that an invalid column does not leave part of the range hidden
+        for column in [column_start, column_end] {
+            self.model
+                .workbook
+                .worksheet(sheet)?
+                .is_column_hidden(column)?;
+        }
         let mut diff_list = Vec::new();
         for column in column_start..=column_end {
             let old_value = self
@@ -1392,33 +1399,32 @@ impl<'a> UserModel<'a> {
             if let Some(view) = self.model.workbook.views.get_mut(&self.model.view_id) {
                 if view.sheet == sheet {
                     // We select the next visible column
+                    // (columns outside the grid are not probed: hiding up to the last column is valid)
                     let mut column = column_end + 1;
-                    while self
-                        .model
-                        .workbook
-                        .worksheet(sheet)?
-                        .is_column_hidden(column)?
-                    {
-                        column += 1;
-                        if column > LAST_COLUMN {
-                            break;
-                        }
-                    }
-                    if column > LAST_COLUMN {
-                        // We select the previous visible column
-                        column = column_start - 1;
-                        while self
+                    while column <= LAST_COLUMN
+                        && self
                             .model
                             .workbook
                             .worksheet(sheet)?
                             .is_column_hidden(column)?
+                    {
+                        column += 1;
+                    }
+                    if column > LAST_COLUMN {
+                        // We select the previous visible column
+                        column = column_start - 1;
+                        while column >= 1
+                            && self
+                                .model
+                                .workbook
+                                .worksheet(sheet)?
+                                .is_column_hidden(column)?
                         {
                             column -= 1;
-                            if column <= 0 {
-                                // We can't find a visible column
-                                column = 1;
-                                break;
-                            }
+                        }
+                        if column < 1 {
+                            // We can't find a visible column
+                            column = 1;
                         }
                     }
                     self.set_selected_cell(1, column)?;
